@@ -148,7 +148,7 @@ def opCurveToDer : List String → String
 /-- curve.fromder <derhex> : `Curve.from_der` on explicit parameters -/
 def opCurveFromDer : List String → String
   | [d] => match parseHex d with
-    | some data => (match CurveDer.fromDer data with
+    | some data => (match CurveDer.curveFromDer data with
       | .ok f => "ok " ++ f.name ++ " " ++ toString f.p ++ " " ++ showSInt f.a ++ " " ++ showSInt f.b ++ " " ++ toString f.gx ++ " " ++
           toString f.gy ++ " " ++ toString f.order ++ " " ++ (match f.cofactor with | some h => toString h | none => "-")
       | .error e => "err " ++ e.name)
